@@ -233,6 +233,37 @@ def validate_lines(chk, module, cfg, lines, tag, chunk=None, parallel=8, timeout
     return sorted(rejected)
 
 
+def validate_groups(chk, module, cfg, lines, groups, tag, parallel=8, timeout=1500):
+    """Like validate_lines for stateful trace specs: `groups` is a list of lists of indexes into `lines`;
+    lines of one group stay together (and in order) in one TLC run. Returns rejected indexes."""
+    buckets = [[] for _ in range(max(1, min(parallel, len(groups))))]
+    for g in sorted(groups, key=len, reverse=True):
+        min(buckets, key=len).extend(g)
+    d = os.path.join(chk.workdir, "traces")
+    os.makedirs(d, exist_ok=True)
+    jobs = []
+    for k, b in enumerate(buckets):
+        if not b:
+            continue
+        path = os.path.join(d, f"{tag}_{k}.ndjson")
+        with open(path, "w") as f:
+            for i in b:
+                f.write(json.dumps(lines[i], ensure_ascii=True, separators=(",", ":")) + "\n")
+        jobs.append((b, path))
+    rejected = []
+    with ThreadPoolExecutor(max_workers=parallel) as ex:
+        futs = [(b, ex.submit(validate_trace, module, cfg, path, timeout)) for b, path in jobs]
+        for b, f in futs:
+            ok, info = f.result()
+            chk.states += info["distinct"]
+            chk.transitions += info["generated"]
+            rejected.extend(b[l - 1] for l in info["rejected"])
+    n = sum(len(b) for b, _ in jobs)
+    chk.traces += n
+    chk.tlc_runs.append({"what": f"trace validation {module} ({n} events in {len(jobs)} runs)", "rejected": len(rejected)})
+    return sorted(rejected)
+
+
 # --------------------------------------------------------------------------- jrv worker pool
 
 def _run_chunk(cmds, env, timeout_per_case):
